@@ -202,12 +202,14 @@ func (p *parser) parse() (err error) {
 
 func (p *parser) pegText(node *node32) string {
 	for n := node; n != nil; n = n.next {
-		if s := p.pegText(n.up); s != "" {
-			return s
-		}
 		if n.pegRule != rulePegText {
+			if s := p.pegText(n.up); s != "" {
+				return s
+			}
 			continue
 		}
+		// a captured text is taken as a whole: do not descend into captures nested
+		// in it (the IntConstant of the exponent of a DoubleConstant)
 
 		quote := p.buffer[n.begin-1]
 		runes := make([]rune, 0, n.end-n.begin)
@@ -485,7 +487,8 @@ func (p *parser) parseConstValue(node *node32) (cv *ConstValue, err error) {
 	// DoubleConstant / IntConstant / Literal / Identifier / ConstList / ConstMap
 	switch node.pegRule {
 	case ruleDoubleConstant:
-		double, _ := strconv.ParseFloat(p.pegText(node), 64)
+		// the exponent is an IntConstant, which also consumes the blanks after it
+		double, _ := strconv.ParseFloat(strings.TrimSpace(p.pegText(node)), 64)
 		return &ConstValue{Type: ConstType_ConstDouble, TypedValue: &ConstTypedValue{Double: &double}}, nil
 	case ruleIntConstant:
 		i, err := strconv.ParseInt(p.pegText(node), 0, 64)
